@@ -48,12 +48,6 @@ NOT_APPLICABLE = {
            'contract beyond "calls bincode::serialize"; a contract on bincode ("deserialize(serialize(x)) == x") would assume '
            'the property instead of deciding it; Verus cannot see derive output or external crates, Kani cannot hold a Sodg',
     'C09': 'a property of bincode\'s reader and the dependencies\' serde visitors, not of any sodg function a contract could be put on',
-    'C11': 'the text of merge()/merge_rec() does go through Verus now (C12 is decided on it), but C11 is about what the recursion '
-           'does to the LEFT graph: every bind/add/next_id/put on it needs that graph\'s limit preconditions (label fits, group has '
-           'room, free slot, free id), which for a recursive graft are a global property of both trees; join() removes a vertex '
-           'slot, which leaves the verified invariant; proving that join() is never reached for trees IS the grafting induction '
-           '(a simulation between the two trees maintained across the recursion) - a protocol-level invariant, not a per-function '
-           'contract; Kani runs out of memory on any harness that constructs a Sodg',
     'C14': 'the content of the property is parsing: commands() and deploy_one() are regex::Regex captures / replace_all, '
            'str::split/trim, a match on captured &str, u8::from_str_radix on sub-slices, HashMap::entry(..).or_insert_with(|| '
            'g.next_id()) (a closure that mutates the graph): none of it has a Verus specification and regex cannot be given one '
@@ -289,6 +283,39 @@ PROPS = {
         ['merge() and slice() (hash containers) are not covered', 'next_id() body: see C05'],
         extra=dict(units=['U_ops', 'U_model', 'U_slice'], classify=classify_config_sensitive(SENSITIVE_SIZE + SENSITIVE_NONDET))),
 
+    'C11': dict(
+        units=['U_mergelog'], level='proof',
+        technique='contract-based deductive verification (Verus) of the real merge()/merge_rec() against a ghost transcript of the '
+                  'calls made on the left graph: the operations on the left graph are stubs that only append to the transcript; '
+                  'the contract says which calls the right graph justifies; composition lemma over the recursion',
+        level_text='Unbounded proof on the extracted real merge()/merge_rec() of the part of C11 a per-function contract can carry: '
+                   'merge touches the left graph only through put/bind/add/next_id (and join); data is put exactly onto the images '
+                   'of the right vertices that have data, and it is their data; an edge is bound only from the image of a right '
+                   'vertex to the image of one of its kids under that kid\'s label; a kid that was not mapped before is mapped onto '
+                   'the vertex found (or created) under the same label; a vertex is added only under an id next_id() has just '
+                   'returned and is bound to its parent at once; the mapping is only extended; every present right vertex is '
+                   'mapped when Ok is returned. PARTIAL with respect to the statement: what those calls then do to the left graph '
+                   'is the subject of C01-C04 (each within its own limits), and the graph-level conclusions (paths exist, images '
+                   'distinct, Ok for all trees, join() never reached for trees) are not drawn.',
+        level_note='Trusted: Verus/Z3; std HashMap contracts; the stubs of add/bind/put/next_id/join say only "this call is appended to '
+                   'the transcript" (kid() is a query); kids()/len()/keys() of the right graph by their contracts (proved in U_ops). '
+                   'Not covered: see level text; the right graph must have no dangling edges (trees of present vertices).',
+        design_ref='DESIGN.md §4 C11',
+        trusted_base=GRAPH_TRUSTED + [
+            'std::collections::HashMap<usize,usize>: new/contains_key/insert/get/len over a finite ghost map',
+            'add/bind/put/next_id/join on the left graph: stubs whose only effect is to append their call (with its arguments / '
+            'result) to the ghost transcript log(); kid(): contract-free query',
+            'contracts of kids()/len()/keys(): taken by contract only in this unit, proved in U_ops'],
+        explanation='merge_rec-transcript-justified-by-the-right-graph, merge_rec-mapping-only-extended, merge_rec-data-goes-onto-the-image, '
+                    'merge_rec-own-calls-of-a-kid-step, merge_rec-descend-step, merge-touches-the-left-graph-only-as-the-right-graph-demands; '
+                    'lemmas lemma_log_concat3 (composition), lemma_kid_block, lemma_log_start.',
+        not_covered=['the effect of the transcript on the left graph (paths exist, data readable, GC state): composition with C01-C04 under '
+                     'their limit preconditions, not shown for the recursion',
+                     'distinct right vertices land on distinct left vertices; join() is never reached for trees; Ok for every pair of trees',
+                     'the answers of kid() (whether an existing kid is really found): kid() is verified in U_ops, its use here is a query'],
+        assumptions=['the right graph is well-formed, `right` is present, no edge of a present right vertex leads to an absent vertex '
+                     '(trees of present vertices)', 'the left graph is well-formed on entry (only used for self.len())'],
+    ),
     'C12': dict(
         units=['U_merge'], level='proof',
         technique='contract-based deductive verification (Verus) of the real merge()/merge_rec(): invariant "every key of '
